@@ -42,7 +42,7 @@ ALSO = {
            "a parent snapshot present a suffix-only cut keeps the wrong elements. The argument of truncate / split_off on the popped vector in clear_snapshot is computed from the vector's length.",
     "C12": "Also decided: the setter stores into the process-wide limit on every path with the sentinel the tracker reads "
            "as unlimited; the limit keeps its integer width from setter to comparison; the global is read only when a "
-           "tracker is built. In every counting combinator the limit check precedes every write to the parser state, so a refused call hands back the caller's state.",
+           "tracker is built. In every counting combinator the limit check precedes every write to the parser state, so a refused call hands back the caller's state. No public ParserState operation reaches an explicit panic site (empty-stack expect of POP / PEEK) without first leaving when the tracker says the limit was reached.",
     "C13": "Also decided: operator lookup precondition (binary search only over sorted tables), each operator of a `|` "
            "chain is registered under its own rule, and a rule declared twice resolves alike in PrattParser and "
            "ConstPrattParser (last declaration wins in both). The expansions of prec_climber! and pratt_precedence! on a witness table (compiled, never run) give |-joined operators one level, later lines higher levels, and keep associativity.",
